@@ -140,6 +140,20 @@ def perm_wrappers(facts):
     return direct
 
 
+NODE_CLASSES = (Y + 'border_node::', Y + 'base_node::', Y + 'interior_node::')
+
+
+def _private_word(f, r):
+    """A permutation object that is a field of reader-private state (the cursor's saved word): a member chain with no
+    member of a node class and no call in it, rooted in a local variable that is not a node."""
+    while r is not None and r['k'] == 'MemberExpr':
+        if (r.get('member') or '').startswith(NODE_CLASSES) or not r.get('member'):
+            return False
+        r = f.strip(f.ch(r)[0], casts=True) if f.ch(r) else None
+    return r is not None and r['k'] == 'DeclRefExpr' and r.get('dk') == 'var' and \
+        not any(c.rstrip(':').split('::')[-1] in (r.get('ty') or '') for c in NODE_CLASSES)
+
+
 def snap_rule(S, f, rule):
     """A reader consumes the permutation word through ONE local snapshot: the only live read of the shared word is the
     whole-word load (get_body) that initialises the snapshot; rank / count lookups go through the local copy; calls of
@@ -156,7 +170,7 @@ def snap_rule(S, f, rule):
             r = f.strip(call_recv(f, x), casts=True)
             local = rv is not None and rv != 'this' and r is not None and r['k'] == 'DeclRefExpr' and \
                 'permutation' in (r.get('ty') or '')
-            if not local:
+            if not local and not _private_word(f, r):
                 bad.append(x)
         elif x['k'] in CALL_KINDS and x.get('callee') in wraps:
             n += 1
